@@ -187,3 +187,14 @@ package font
 //@   ensures [one-per-coordinate] len(result) == len(coords) && fresh(result)
 //@   modifies nothing
 //@   loop 1 invariant [shape] len(normalized) == len(coords) && fresh(normalized)
+//
+// SetVariations (C13, "cache invalidation on SetCoords/SetPpem"): every way of changing the variation coordinates
+// through the public API goes through the invalidation of the extents cache, including the removal of variations.
+//@ trusted fvar.getDesignCoordsDefault
+//@   ensures [one-per-axis] len(result) == len(fv)
+//@   modifies nothing
+//@ func Face.SetVariations C13
+//@   mode bv
+//@   requires [font] face.Font != nil
+//@   ensures [cache-invalidated] forall(k, 0, len(face.extentsCache), !face.extentsCache[k].valid)
+//@   modifies unspecified
